@@ -224,6 +224,34 @@ Proof.
 Qed.
 Print Assumptions C02_for_step.
 
+(* NEXT iterates the loop that is running: of all records left on the FOR stack for this NEXT (a loop left with
+   GOTO and entered again leaves stale ones below), the newest one supplies step, limit and direction; the
+   counter advances by exactly that step, Overflow exactly when that sum leaves the range; stale records above
+   are dropped, the record itself is popped when the loop ends *)
+Theorem C02_for_running_loop : forall above r below pos get,
+  (forall q, In q above -> f_nextpos q <> pos) -> f_nextpos r = pos ->
+  buf_ok (get (f_var r)) -> buf_ok (f_step r) -> buf_ok (f_stop r) ->
+  next_step (above ++ r :: below) pos None get =
+    let z := dec (get (f_var r)) + dec (f_step r) in
+    if in16b z
+    then let e := if f_sgn r >=? 0 then z >? dec (f_stop r) else dec (f_stop r) >? z in
+         Ok (if e then below else r :: below, (f_var r, enc z), e)
+    else Err 6.
+Proof. exact next_step_running. Qed.
+Print Assumptions C02_for_running_loop.
+
+Theorem C02_next_without_for : forall st pos vname get,
+  (forall q, In q st -> f_nextpos q <> pos) -> next_step st pos vname get = Err 1.
+Proof. exact next_step_none. Qed.
+Print Assumptions C02_next_without_for.
+
+(* a stale record (step 20000) below the running one (step 1): 20000 + 1, no Overflow *)
+Example C02_for_reentered :
+  let stale := mk_frec 0 (enc 20003) (enc 20000) 1 50 in
+  let running := mk_frec 0 (enc 20003) (enc 1) 1 50 in
+  next_step [running; stale] 50 None (fun _ => enc 20000) = Ok ([running; stale], (0, enc 20001), false).
+Proof. vm_compute. reflexivity. Qed.
+
 (* ---- non-vacuity: the boundary cases ---- *)
 Example C02_nonvacuous :
   in16 (-32768) /\ in16 (-1) /\ in16 32767 /\
